@@ -2,9 +2,11 @@
 from .. import gen
 from . import common
 
-SPEC_THEOREM = 'Props/C08: the evaluator never panics on parser-producible paths; selection = PathSem semantics on the decoded tree'
+SPEC_THEOREM = ('Props/C08: the evaluator never panics on parser-producible paths; selection = PathSem semantics on the decoded tree; '
+                'C08_bytes_*: the offset-faithful selector (SelWalk.v: byte positions, no decoding) on enc v = the tree evaluator on normalise v')
 TRUSTED = ['Coq 8.16.1 kernel', 'translator', 'extraction + OCaml driver', 'Rust harness (paths are handed over as ASTs, no parser on the way)',
-           'model PathSem.v: selector.rs step by step with positions replaced by the sub-values they denote (offset arithmetic tied by correspondence)']
+           'model SelWalk.v: selector.rs on byte positions (tied to the code by correspondence, corrupt buffers included); PathSem.v is the same '
+           'evaluator on the denoted sub-values and SelWalkProofs.v proves the two equal on every canonical encoding']
 ASSUMPTIONS = ['documents are canonical encodings of well-formed values', 'cross-kind comparisons follow the derived variant order of PathValue (the README is silent)']
 RULE = '(path, document) pairs with paths generated from the document (steps hit) and perturbed; scalar roots, empty containers, container-valued items; step-kind pair coverage is measured; non-trivial = at least one item selected'
 
